@@ -160,6 +160,10 @@ type Machine struct {
 	preemptLock bool
 	preemptBound int
 	preemptAt   []string
+	xcheckEvery int
+	xcheckMax   int
+	xcheckDir   string
+	xcheckTag   string
 	replace  map[string]string
 	curIn    ssa.Instruction
 }
